@@ -772,6 +772,10 @@ class ConditionBinaryOp(ConditionLike):
         return null_condition_binary_check(*conditions) or super().__new__(cls)
 
     def __init__(self, *conditions):
+        if null_condition_binary_check(*conditions) is not None:
+            # `__new__` returned an existing operand; it must not be re-initialised.
+            return
+
         super().__init__()
 
         self.children = conditions
